@@ -15,7 +15,7 @@ def hash_groups():
                        sources=src, defines=d, what=what, **kw))
     g('hash.div', ['C17'], 'h_div', 'cstl_hash_div', what='cstl_hash_div(k,m) < m for all k, all m >= 1')
     g('hash.mul', ['C17'], 'h_mul', 'cstl_hash_mul', what='cstl_hash_mul(k,m) < m for all k, all m >= 1 (IEEE binary32)',
-      solver='cvc5', timeout=1500, cover_solver=True)
+      solver='cvc5', timeout=1500, cover_solver=True, refuter='kissat')
     g('hash.load', ['C19'], 'h_load', 'cstl_hash_load', what='cstl_hash_load reports size / effective bucket count', solver='cvc5', timeout=300, cover_solver=True)
     g('hash.get_bucket_raw', ['C17', 'C03'], 'h_get_bucket_raw', '__cstl_hash_get_bucket',
       what='bucket selection with an arbitrary caller hash: result inside [0,count) of the array or abort',
